@@ -133,7 +133,14 @@ def check_datagram(svc, calls, msgs, multicast, addr, ctx, replay):
     calls.clear()
     data = b"".join(refwire.encode_someip(m) for m in msgs)
     try:
-        svc.datagram_received(data, addr, multicast)
+        if debug:
+            svc.datagram_received(data, addr, multicast)
+        else:
+            # the way datagrams really arrive: through the adapter that create_unicast_endpoint / start_datagram_endpoint put
+            # between the asyncio transport and the protocol object
+            import someip.sd as _S
+            _S.DatagramProtocolAdapter(svc, is_multicast=multicast).datagram_received(data, addr)
+            ctx.count("datagrams_delivered_through_the_endpoint_adapter")
     except Exception as exc:  # the receive path must not raise (C03 owns this, but see it here too)
         ctx.violation("receive-path-raised", dict(exc=repr(exc), msgs=msgs), replay)
         return
@@ -220,7 +227,8 @@ def run(spec, ctx):
             mid = HANDLERS[hk] if hk != "unknown" else rng.choice((0, 0x000F, 0x0014, 0x8010, 0xFFFF, M_BYTES | 0x8000,
                                                                     0x8100, 0x8000))  # incl. the SD / magic-cookie method ids
             m = dict(sid=sid, mid=mid, cid=cid, sess=sess, iv=iv, mt=mt, rc=rc, payload=payload)
-            addr = rng.choice((("192.0.2.9", 40000), ("2001:db8::9", 40001, 0, 0)))
+            # (a dual-stack socket reports an IPv4 client as an IPv4-mapped IPv6 address; a link-local one with its scope id)
+            addr = rng.choice((("192.0.2.9", 40000), ("2001:db8::9", 40001, 0, 0), ("::ffff:192.0.2.9", 40000, 0, 0), ("fe80::9", 40001, 0, 3)))
             check_datagram(svc, calls, [m], mc, addr, ctx, dict(msgs=[m], multicast=mc, addr=addr))
             ctx.count("messages")
             faults = (not sok) + (not vok) + (hk == "unknown") + (mt not in (0, 1)) + (rc != 0)
